@@ -92,6 +92,9 @@ type ChanObj struct {
 	Taken    *Term // parked value has been taken by a receiver
 	Senders  int
 	Recvwait *Term
+	// Timer: channel returned by time.After; it delivers its value when the receiver would
+	// otherwise block (time passes), or at once when the duration was <= 0
+	Timer bool
 }
 
 // OpaqueVal is an engine-private payload stored in a field of a modelled stdlib struct.
@@ -430,7 +433,7 @@ func (x *Exec) iteChan(c *Term, a, b *ChanObj) *ChanObj {
 			panic("ite of channels with different parked senders")
 		}
 	}
-	out := &ChanObj{Cap: a.Cap, ET: a.ET, Buf: make([]Value, a.Cap), Senders: a.Senders}
+	out := &ChanObj{Cap: a.Cap, ET: a.ET, Buf: make([]Value, a.Cap), Senders: a.Senders, Timer: a.Timer || b.Timer}
 	if out.Senders == 0 {
 		out.Senders = b.Senders
 	}
